@@ -1092,6 +1092,14 @@ func (interp *Interpreter) cfg(root *node, sc *scope, importPath, pkgName string
 
 		case blockStmt:
 			wireChild(n)
+			if n.anc != nil && (n.anc.kind == rangeStmt || n.anc.kind == forStmt7) && len(n.child) > 0 {
+				// A loop body without any statement only holds the hidden per-iteration
+				// copies of the loop variables: chain the last one to the block, otherwise
+				// execution silently stops there.
+				if l := n.lastChild(); l.kind == identExpr && l.tnext == nil {
+					l.tnext = n
+				}
+			}
 			if len(n.child) > 0 {
 				l := n.lastChild()
 				n.findex = l.findex
